@@ -6,7 +6,7 @@
 (* verdict of every event is total: a set of failing clause names (empty = *)
 (* accepted) printed as <<"V", id, clauses>>.                              *)
 (***************************************************************************)
-EXTENDS Json, IOUtils, TLC, JSearch, JArrays, JProcess, JRfa
+EXTENDS Json, IOUtils, TLC, JSearch, JArrays, JProcess, JRfa, JRfaRel
 
 Trace == JsonDeserialize(IOEnv.TRACE_FILE)
 Chunk == atoi(IOEnv.TRACE_CHUNK)
@@ -44,6 +44,7 @@ Verdict(e) ==
       [] e.fn = "rfa" -> V_rfa(e)
       [] e.fn = "rfa_reject" -> V_rfa_reject(e)
       [] e.fn = "funfit" -> V_funfit(e)
+      [] e.fn = "rfa_rel" -> V_rfa_rel(e)
       [] OTHER -> {"machinery.unknown_fn"}
 
 Judge == l > 0 => PrintT(<<"V", Trace[l].id, Verdict(Trace[l])>>)
